@@ -5,4 +5,6 @@ cd "$(dirname "$0")"
 export CARGO_NET_OFFLINE=true
 (cd lean && lake build)
 (cd harness && cargo build --offline)
+# second build configuration used by the C12/C16 runs (the crate's optional `chrono` feature)
+(cd harness && CARGO_TARGET_DIR=target-chrono cargo build --offline --features chrono)
 echo "setup ok"
